@@ -95,6 +95,46 @@ def make_array(kind, shape, j, byteorder="="):
     return arr
 
 
+PATTERNS = ("allsame", "allsame0", "signzeros", "drift", "allnan", "nearly", "samebut1")
+
+
+def make_pattern(kind, shape, pattern):
+    """arrays whose elements are equal, compare equal without being identical, or are very close:
+    the shapes a 'store constant arrays once' / 'delta' / 'tolerance' encoding would get wrong"""
+    n = int(np.prod(shape))
+    if kind == "b1":
+        flat = {"allsame": [True] * n, "allsame0": [False] * n, "samebut1": [True] * (n - 1) + [False]}.get(pattern)
+    elif kind[0] in "iu":
+        hi = int(np.iinfo(kind).max)
+        flat = {"allsame": [hi] * n, "allsame0": [0] * n, "drift": [hi - n + 1 + i for i in range(n)], "samebut1": [7] * (n - 1) + [8], "nearly": [hi - (i % 2) for i in range(n)]}.get(pattern)
+    elif kind[0] == "f":
+        one = np.array(348.123456, dtype=kind)
+        step = np.spacing(one)
+        flat = {
+            "allsame": [1.5] * n,
+            "allsame0": [-0.0] * n,
+            "signzeros": [0.0 if i % 2 == 0 else -0.0 for i in range(n)],
+            "drift": [float(one + i * step) for i in range(n)],
+            "allnan": [float("nan")] * n,
+            "nearly": [1.0 + (1e-9 if kind == "f8" else 0.0) * i for i in range(n)] if kind == "f8" else [float(one - i * step) for i in range(n)],
+            "samebut1": [2.25] * (n - 1) + [float("nan")],
+        }.get(pattern)
+    elif kind[0] in "Mm":
+        base = 1409282514
+        flat = {"allsame": [base] * n, "allsame0": [0] * n, "drift": [base + i for i in range(n)], "allnan": [I64MIN] * n, "samebut1": [base] * (n - 1) + [I64MIN], "nearly": [I64MIN] + [base] * (n - 1)}.get(pattern)
+        if flat is None:
+            return None
+        return np.array(flat, dtype="int64").view(kind).reshape(shape)
+    elif kind == "U":
+        flat = {"allsame": ["µs"] * n, "allsame0": [""] * n, "samebut1": ["a"] * (n - 1) + ["a "], "nearly": ["a", "A"] * (n // 2) + ["a"] * (n % 2)}.get(pattern)
+        if flat is None:
+            return None
+        return np.array(flat).reshape(shape)
+    if flat is None:
+        return None
+    return np.array(flat, dtype=kind).reshape(shape)
+
+
 def n_rotations(kind):
     if kind == "b1":
         return 2
@@ -126,6 +166,11 @@ def doc_params(tier):
             if kind[0] in "Mm" and shape in ((), (1,), (3,)):
                 for j in (100, 101, 102, 103):
                     out.append({"t": "array", "kind": kind, "shape": list(shape), "j": j, "bo": "=", "list": False, "attrs": 0})
+        for shape in ((2,), (3,), (2, 2)) if tier == "quick" else ((2,), (3,), (5,), (2, 2), (3, 2), (1, 3)):
+            for pattern in PATTERNS:
+                if make_pattern(kind, shape, pattern) is not None:
+                    for as_list in (False, True) if kind in ("f8", "i8") else (False,):
+                        out.append({"t": "pattern", "kind": kind, "shape": list(shape), "pattern": pattern, "list": as_list})
     for a in range(len(ATTRS)):
         out.append({"t": "attrs", "attrs": a})
     for depth in (0, 1, 2):
@@ -148,6 +193,11 @@ def build_doc(p):
         dims = ["x", "y"][: arr.ndim]
         data = arr.tolist() if p["list"] else arr
         g = Group(path="/", url="memory:///r", data={"v": Variable(dims, data, dict(ATTRS[p["attrs"]]))}, attrs={"a": 1})
+        return g, 2
+    if p["t"] == "pattern":
+        arr = make_pattern(p["kind"], tuple(p["shape"]), p["pattern"])
+        data = arr.tolist() if p["list"] else arr
+        g = Group(path="/", url=None, data={"v": Variable(["x", "y"][: arr.ndim], data, {"units": "deg"}), "w": Variable(["x"], [1, 1, 1], {})}, attrs={})
         return g, 2
     if p["t"] == "attrs":
         g = Group(path="/", url=None, data={"v": Variable(["x"], np.arange(2), dict(ATTRS[p["attrs"]]))}, attrs=dict(ATTRS[p["attrs"]]))
@@ -258,6 +308,8 @@ def reader_cases():
         lay = synth.layout(synth.TYPE_INFO["C*8" if level == "1.1" else "IU2"]["rec"])
         plain = [f for f in lay.fields if f["kind"] == "B" and "enum" not in f and not f.get("flag") and not f["name"].startswith("preamble.") and f["name"] != "sar_image_data_line_number"]
         out.append({"fn": "execute_reader", "spec": sp, "devs": [], "label": f"{level} baseline"})
+        for mode in ("equal", "drift"):
+            out.append({"fn": "execute_reader", "spec": {**sp, "images": [["HH", None, 4, 2], ["HV", "F2" if level == "1.1" else None, 2, 1]], "line_mode": mode}, "devs": [], "label": f"{level} per-line values {mode}"})
         for val, nm in (("ff", "max"), ("00", "zero"), ("80", "high bit")):
             out.append({"fn": "execute_reader", "spec": sp, "devs": [["img0", "line", f["key"], {"hex": (val + "00" * (f["w"] - 1)) if nm == "high bit" else val * f["w"]}, None if f["name"] in synth.LINE_CONSTANTS else 1] for f in plain], "label": f"{level} every line field {nm}"})
         out.append({"fn": "execute_reader", "spec": sp, "devs": [["img0", "file_descriptor", k, {"hex": v[0].hex()}] for k, v in c03.HEADER.items()], "label": f"{level} optional header fields blank"})
@@ -274,7 +326,7 @@ def run(res, tier, seed):
         " alphabet rotated through every position (incl. NaN, +-inf, -0.0, denormals, int extremes, 2^53+1, NaT, int64 extremes for"
         " times, non-ASCII / empty strings) x byte order x ndarray|list; 9 attribute dictionaries (int/float extremes, tuples in"
         " lists in tuples, unicode); nesting depth 0..2 x all orders of 3 variables; backend image arrays; reader-produced groups of"
-        " both levels with extreme line fields, blank headers and boundary time stamps. Every document goes encode -> decode in"
+        " both levels with extreme line fields, blank headers and boundary time stamps, and with per-line values identical on all lines / drifting by one unit per line. Every document goes encode -> decode in"
         " process and encode -> text -> fresh interpreter."
     )
     res.assumptions = ["list-valued data is compared as numpy.asarray(list) (the decoder returns arrays)", "shape (0, n) two-dimensional empties are outside the alphabet", "dtypes are compared up to byte order; one array never spans more than 2^63 time units"]
